@@ -66,6 +66,15 @@ impl CovComputer {
         self.memory_ceil_gb = memory_ceil_gb;
     }
 
+    #[cfg(kmertools_verif)]
+    pub fn verif_vectorise_one(
+        &self,
+        seq: &[u8],
+        counts: &HashMap<u64, u32>,
+    ) -> Vec<f64> {
+        self.vectorise_one(seq, counts)
+    }
+
     pub fn build_table(&self) -> Result<(), String> {
         let mut ctr =
             CountComputer::new(self.in_path_kmer.clone(), self.out_dir.clone(), self.ksize);
@@ -171,6 +180,12 @@ impl CovComputer {
             let count = *counts.get(&min_mer).unwrap_or(&0);
             let kmer_bin = (count as f64 / self.bin_size as f64).floor() as usize;
             let vec_bin = min(kmer_bin, self.bin_count - 1);
+            #[cfg(kmertools_verif)]
+            ktio::verif::log(ktio::verif::Ev::Index {
+                site: "coverage.vec",
+                idx: vec_bin,
+                len: vec.len(),
+            });
             unsafe {
                 // we already know the size of the vector and
                 *vec.get_unchecked_mut(vec_bin) += 1_f64;
